@@ -320,7 +320,7 @@ func cmdCheck(args []string) {
 			discharged++
 			continue
 		}
-		if ob.Result == "sat" || baseline[ob.Name] {
+		if ob.Result == "sat" || baseline[ob.Name] || baselineHas(baseline, ob.Name) {
 			failed = append(failed, ob)
 		} else {
 			undecided = append(undecided, ob)
@@ -550,4 +550,21 @@ func writeEvidence(prop, tier string, seed int, ps *propSpec, units []*Unit, rep
 // tryReplay attempts to reproduce a failed obligation on the real code; see replay.go.
 func tryReplay(e *Engine, prop string, ob *Obligation, path string) bool {
 	return replayObligation(e, prop, ob, path)
+}
+
+
+// baselineHas matches per-return-site obligations (name@retN) against the baseline by clause name, so
+// that adding or removing a return statement does not turn a failing clause into an "unknown new" one.
+func baselineHas(bl map[string]bool, name string) bool {
+	i := strings.Index(name, "@ret")
+	if i < 0 {
+		return false
+	}
+	prefix := name[:i] + "@ret"
+	for k := range bl {
+		if strings.HasPrefix(k, prefix) {
+			return true
+		}
+	}
+	return false
 }
